@@ -1372,6 +1372,47 @@ def mtvrp_horizon_guard(ctx: Ctx):
            f"window start = (1 + (H - 1) * u) * d / speed; assertion H >= 1 over all nodes present: {ok} (assertions seen: {seen[:3]})" +
            ("" if ok else " -- without it a short horizon / far customer yields a window that closes before the vehicle can arrive"),
            construct="MTVRPGenerator.generate_time_windows:horizon-guard")
+    # ... and H itself is the number of one-way trips d / speed that fit before the latest start:  the latest start H * d / speed
+    # plus window length, service time and the way back d / speed must not exceed the depot's closing time:
+    #   H = (max_time - service - length) / (d / speed) - 1.    In normal form: constant term -1, every other monomial carries
+    # recip(d) and speed, and what remains of them is  max_time - service - length  (length = end - start of the returned windows,
+    # service = the returned service times of the customers).  `- 1` -> `+ 1` lets the window end after the vehicle must leave.
+    ret = fr.ret
+    items = ret.items if isinstance(ret, vg.Tup) else (list(ret.args) if isinstance(ret, vg.S) and ret.op == "tuple" else [])
+    ok_h, why_h = False, "H not decomposed"
+    try:
+        tw = nf.strip(items[0])
+        cols = nf._seq_items(tw.args[1])
+        s_col = nf._seq_items(nf.strip(cols[0]).args[1])[1]
+        e_col = nf._seq_items(nf.strip(cols[1]).args[1])[1]
+        serv = nf._seq_items(nf.strip(items[1]).args[1])[1]
+        length = nf.poly(e_col) - nf.poly(s_col)
+        rec_d = [a for a in H_poly.atoms() if a.op == "recip" and (nf._fn(nf.strip(a.args[0])) or "").endswith("get_distance")]
+        spd = [a for a in H_poly.atoms() if a.op == "param" and a.args[0] == "speed"]
+        if len(rec_d) == 1 and len(spd) == 1:
+            rest = nf.Poly.const(0)
+            shape_ok = H_poly.const_term() == -1
+            for mono, coef in H_poly.terms.items():
+                if not mono:
+                    continue
+                ats = {nf.Poly.ATOMS[a_]: e_ for a_, e_ in mono}
+                if ats.get(rec_d[0]) != 1 or ats.get(spd[0]) != 1:
+                    shape_ok = False
+                    break
+                term = nf.Poly.const(coef)
+                for a_, e_ in ats.items():
+                    if a_ is rec_d[0] or a_ is spd[0]:
+                        continue
+                    for _ in range(e_):
+                        term = term * nf.Poly.atom(a_)
+                rest = rest + term
+            want_rest = nf.poly(vg.mk("selfattr", "max_time")) - nf.poly(serv) - length
+            ok_h = bool(shape_ok and rest == want_rest)
+            why_h = f"H = (max_time - service - length) * speed / d - 1: constant term {H_poly.const_term()}, every other term over d / speed: {shape_ok}, numerator = max_time - service - length: {rest == want_rest}"
+    except Exception as ex:  # structure not as expected: reported, not raised
+        why_h = f"H not decomposed ({type(ex).__name__})"
+    ctx.ob("C18.p", "MTVRPGenerator.generate_time_windows:horizon-leaves-time-to-return", ok_h, fi.loc, why_h,
+           construct="MTVRPGenerator.generate_time_windows:horizon-definition")
 
 
 def mtvrp_windows_ordered(ctx: Ctx):
